@@ -732,7 +732,7 @@ def gen_cases(ctx, rng):
         ws2 = spec_ws(rng)
         if rng.random() < 0.6:
             ws2 = json.loads(json.dumps(ws2).replace('"SR"', '"SRb"').replace('"CR_low"', '"CRb"').replace('"ch_1"', '"ch_1b"')
-                             .replace('"A"', '"Ab"').replace('"VR2"', '"VR2b"').replace('"meas', '"other'))
+                             .replace('"A"', '"Ab"').replace('"VR2"', '"VR2b"').replace('"name": "meas', '"name": "other'))
         for jn in (['none', 'outer', 'left outer', 'right outer'] if not q or i < 3 else [rng.choice(['none', 'outer', 'left outer', 'right outer'])]):
             c = dict(cmd='combine', ws=ws, ws2=ws2, via=rng.choice(['file', 'stdin']), out=rng.choice(['stdout', 'file']), join=jn, _long=rng.random() < 0.5)
             mc = rng.choice([None, True, False])
@@ -836,16 +836,23 @@ def subprocess_cases(ctx, rng):
             dict(cmd='digest', ws=ws, via='stdin', algorithm=['md5'], output_json=True)][:ctx.n(5, 6)]
 
 
+# the console script `pyhf = pyhf.cli:cli` of pyproject.toml, run against $VERIF_REPO/src (the package has no __main__)
+ENTRY = 'import sys; from pyhf.cli import cli; sys.exit(cli())'
+
+
 def sub_invoke_factory():
     env = dict(os.environ, PYTHONPATH=os.path.join(core.REPO, 'src'))
 
     def run(args, stdin=None):
-        p = subprocess.run([sys.executable, '-W', 'ignore', '-m', 'pyhf.cli'] + args, input=stdin, env=env, capture_output=True, text=True, timeout=600)
+        p = subprocess.run([sys.executable, '-W', 'ignore', '-c', ENTRY] + args, input=stdin, env=env, capture_output=True, text=True, timeout=600)
         return dict(exit=p.returncode, stdout=p.stdout, exc=None, msg=p.stderr.strip().split('\n')[-1][:160] if p.stderr else '')
     return run
 
 
 # ----------------------------------------------------------------------------------------------------------------------
+UNCONSUMED = []
+
+
 def case_public(case):
     return {k: v for k, v in case.items() if not k.startswith('_') or k in ('_short', '_long', '_aflag')}
 
@@ -855,9 +862,25 @@ def report(ctx, case, d, res, runner='CliRunner'):
     cul = ''
     if runner == 'CliRunner':
         cul = culprit(case, d, kind)
+        if case['cmd'] in ('sort', 'digest', 'prune', 'rename', 'inspect') and 'ws' in case:
+            from harness.props import c18
+
+            def fails(w):
+                r = differential(dict(case, ws=w), d + '-shrink')
+                return r[0] if r is not None else None
+            try:
+                case = dict(case, ws=c18.shrink(case['ws'], fails))
+                r2 = differential(case, d + '-shrink')
+                if r2 is not None and r2[0] == kind:
+                    kind, text, det = r2
+            except Exception:
+                pass
+    fact = [case['cmd'], cul] in UNCONSUMED or (not cul and any(u[0] == case['cmd'] for u in UNCONSUMED))
+    if fact:
+        text += ' [extracted fact: %r is parsed but never used by the command body]' % [u for u in UNCONSUMED if u[0] == case['cmd']]
     sig = '%s:%s%s' % (case['cmd'], kind, (':' + cul) if cul else '')
     ctx.violation(sig, '`pyhf %s`: %s%s' % (case['cmd'], text, (' [option not taking effect: %s]' % cul) if cul else ''),
-                  dict(kind='cli', case=case_public(case), runner=runner, impl=det, option=cul,
+                  dict(kind='cli', case=case_public(case), runner=runner, impl=det, option=cul, extracted_fact_unconsumed=[u for u in UNCONSUMED if u[0] == case['cmd']],
                        expected='exit 0 iff the library call succeeds; output carries the library value',
                        theorem='C19 differential run (validation) / C19_every_option_consumed'))
 
@@ -870,6 +893,7 @@ def run(ctx):
         table = extract(ctx)
         ctx.coverage['extracted_facts'] = dict(parameters=len(table), commands=sorted({p['cmd'] for p in table}),
                                                unconsumed=[[p['cmd'], p['param']] for p in table if not p['used']])
+        UNCONSUMED[:] = ctx.coverage['extracted_facts']['unconsumed']
     except facts.TieBroken as e:
         tie = 'fact extraction failed: %s' % e
     if tie is None:
@@ -949,7 +973,7 @@ def run(ctx):
         for c, res in ex.map(one, enumerate(scases)):
             stats['subprocess'] += 1
             if res is not None:
-                report(ctx, c, os.path.join(ctx.work, 'subx'), res, runner='python -m pyhf.cli')
+                report(ctx, c, os.path.join(ctx.work, 'subx'), res, runner='subprocess (console entry point pyhf.cli:cli)')
                 found = True
     ctx.log('subprocess cases done')
     if tie and not found:
